@@ -40,6 +40,15 @@ func (cl *CheckpointList) Add(ckptID uint64, ll *sst.LevelList, w *wal.Writer, l
 		WALs:       []wal.Handle{w.Handle(ll.LatestSeqNum)},
 		LastSeqNum: lastSeqNum,
 	}
+
+	// Index the table files so that IncludesTable also answers for checkpoints
+	// taken by this instance, not only for those loaded from a document.
+	cp.tableURIset = make(map[string]struct{})
+	for level := range ll.DescendLevels() {
+		for t := range level.AllTables() {
+			cp.tableURIset[t.URI()] = struct{}{}
+		}
+	}
 	cl.checkpoints = append(cl.checkpoints, cp)
 }
 
